@@ -436,6 +436,12 @@ func runC03(c *core.Ctx) {
 // the vocabulary; in half of the lists one chosen item has no rule at all (absent or empty lists -
 // a sublayout step, a "tag" step). The verdict on the whole list is compared with the reference.
 func c03ItemLists(c *core.Ctx, vocab [][]string) {
+	// the vocabulary of the exhaustive part plus MATCH rules whose destination prefix is the directory itself
+	vocab = append(append([][]string{}, vocab...),
+		[]string{"MATCH", "*", "WITH", "PRODUCTS", "IN", ".", "FROM", "s2"},
+		[]string{"MATCH", "a", "WITH", "PRODUCTS", "IN", "./", "FROM", "s2"},
+		[]string{"MATCH", "d/*", "WITH", "MATERIALS", "IN", ".", "FROM", "s2"},
+		[]string{"MATCH", "*", "IN", "d", "WITH", "PRODUCTS", "IN", ".", "FROM", "s2"})
 	n := c.Pick(6000, 150000)
 	acc, rej, ruleLess := int64(0), int64(0), int64(0)
 	for i := 0; i < n; i++ {
@@ -732,7 +738,7 @@ func init() {
 	core.Register(&core.Property{
 		ID:    "C03",
 		Level: "exploration",
-		Rule: "exhaustive: universe paths {a, d/a, d/b, dx/a} x hashes {h1,h2}: all 6561 (materials,products) link states x rule lists over a 50-rule vocabulary (7 rule types, patterns * a d/* ? d/a, MATCH in all 4 forms with prefixes d, d/, e, e/d, both destination types, missing destination) of length<=1 completely and all 2-rule lists each on a seed-determined half of the link states (thorough); quick: all lists of length<=1 and a seeded 1% of the 2-rule lists, each on a seed-determined half of the link states, on the material and on the product side, plus every pair (one material rule, one product rule) of the vocabulary on both sides of the same item (thorough: all 2601 pairs, quick: 1/8 of them; a quarter of the link states each), for Step and Inspection items (thorough also: all 2744 lists of length 3 over a 14-rule sub-vocabulary on the 3-path sub-universe {a, d/a, dx/a}, 729 link states, alternating sides), each list also with a terminal probe DISALLOW <path> per universe path (queue observability); random: 8-path universe, 4 hash objects incl. other algorithm sets, lists of 1-11 rules with mixed-case keywords and occasional malformed rules, patterns with classes, negated classes, escapes and stars inside classes; item lists: 6000 (quick) / 150000 (thorough) lists of 2-4 Step or Inspection items, each with its own link and 0-2 vocabulary rules per side, half of the lists with one item that has no rules (absent or empty lists), a quarter with artifact paths spelled in a form that needs cleaning (./a, d//a, d/./a) in all links, whole-list verdict against the reference; grammar: all token lists of length<=4 over 8 tokens + every valid form with <=2 substitutions / 1 insertion / 1 deletion in random casing. " +
+		Rule: "exhaustive: universe paths {a, d/a, d/b, dx/a} x hashes {h1,h2}: all 6561 (materials,products) link states x rule lists over a 50-rule vocabulary (7 rule types, patterns * a d/* ? d/a, MATCH in all 4 forms with prefixes d, d/, e, e/d, both destination types, missing destination) of length<=1 completely and all 2-rule lists each on a seed-determined half of the link states (thorough); quick: all lists of length<=1 and a seeded 1% of the 2-rule lists, each on a seed-determined half of the link states, on the material and on the product side, plus every pair (one material rule, one product rule) of the vocabulary on both sides of the same item (thorough: all 2601 pairs, quick: 1/8 of them; a quarter of the link states each), for Step and Inspection items (thorough also: all 2744 lists of length 3 over a 14-rule sub-vocabulary on the 3-path sub-universe {a, d/a, dx/a}, 729 link states, alternating sides), each list also with a terminal probe DISALLOW <path> per universe path (queue observability); random: 8-path universe, 4 hash objects incl. other algorithm sets, lists of 1-11 rules with mixed-case keywords and occasional malformed rules, patterns with classes, negated classes, escapes and stars inside classes; item lists: 6000 (quick) / 150000 (thorough) lists of 2-4 Step or Inspection items, each with its own link and 0-2 vocabulary rules per side (the vocabulary plus MATCH rules with `.` as destination prefix), half of the lists with one item that has no rules (absent or empty lists), a quarter with artifact paths spelled in a form that needs cleaning (./a, d//a, d/./a) in all links, whole-list verdict against the reference; grammar: all token lists of length<=4 over 8 tokens + every valid form with <=2 substitutions / 1 insertion / 1 deletion in random casing. " +
 			"Oracle = reference queue interpreter + reference grammar written from the spec text, using the reference glob (not the library's). non-trivial/distinct = enumerated cases are distinct by construction, random ones by hash of the whole case",
 		Assumptions: []string{
 			"only clean relative slash paths, clean patterns and prefixes (path.Clean(x)==x, prefixes also with one trailing slash) are generated: behaviour on unclean paths is not stated by the property and not judged",
